@@ -155,7 +155,8 @@ ExpectedHooks(g, ev) ==
                                     ELSE {<<>>, <<Call("transferred", o.from, o.to, 0)>>}
          [] OTHER                -> {<<>>}
 
-\* balances the fungible part prescribes after a successful step (recovery: see C04_recovery)
+\* every monitor is  Ante => Cons ; Ante is also what the trace checker counts as a non-trivial
+\* evaluation of the monitor
 Ante(m, g, ev) ==
   LET o == ev.op  ok == ev.res = "ok" IN
   CASE m = "C04_gates"           -> ok /\ o.op \in {"transfer", "transfer_from", "mint"}
